@@ -118,7 +118,13 @@ def main(argv):
         return 2
     ctx = Ctx(pid, tier)
     try:
-        mod.check(ctx)
+        try:
+            mod.check(ctx)
+        except extract.ToolFailure:
+            raise
+        except Exception as ex:   # a rule crashed on a shape it does not know: fail closed with a diagnosable finding
+            ctx.rule("CRASH", "rule module raised an exception").fail(
+                "rule-error", "rule raised %s: %s | %s" % (type(ex).__name__, ex, traceback.format_exc()[-1200:].replace("\n", " | ")))
         if tier == "thorough":
             # same rules over the MIR of the other feature configurations (different cfg => different code is compiled in)
             for cfg in getattr(mod, "THOROUGH_CONFIGS", ("full", "unstable")):
